@@ -216,6 +216,9 @@ func sha(b []byte) string {
 // noteBody remembers the first label under which a body was seen (payload of
 // invocation k = "p<k>", body posted by the runtime = "r<seq>").
 func (s *Stack) noteBody(b []byte, label string) string {
+	if len(b) == 0 {
+		return "empty"
+	}
 	s.mu.Lock()
 	defer s.mu.Unlock()
 	k := sha(b)
@@ -233,6 +236,9 @@ func (s *Stack) noteBody(b []byte, label string) string {
 // classify maps received bytes to the label of the equal body sent earlier in
 // this scenario, or to a description of what they are.
 func (s *Stack) classify(b []byte) string {
+	if len(b) == 0 {
+		return "empty"
+	}
 	s.mu.Lock()
 	lbl, ok := s.bodies[sha(b)]
 	s.mu.Unlock()
@@ -513,9 +519,9 @@ func (s *Stack) RtRestoreError(p *Proc, who, errType string) CallResult {
 }
 
 // Route issues an arbitrary request (unknown routes, wrong methods).
-func (s *Stack) Route(p *Proc, who, method, path string, hdr map[string]string, body []byte) CallResult {
+func (s *Stack) Route(p *Proc, who, method, path, cls string, hdr map[string]string, body []byte) CallResult {
 	a := actorOf(p, who)
-	cid := s.Rec.Emit(a, "RouteCall", "who", a, "gen", gen(p), "method", method, "path", path)
+	cid := s.Rec.Emit(a, "RouteCall", "cls", cls, "who", a, "gen", gen(p), "method", method, "path", path)
 	r := s.do(p, method, path, hdr, body)
 	s.Rec.Emit(a, "RouteRet", "cid", cid, "who", a, "gen", gen(p), "method", method, "path", path, "status", r.Status, "errType", r.ErrType,
 		"net", r.NetErr, "size", len(r.Body))
